@@ -13,9 +13,13 @@ From Coq Require Import List ZArith NArith Bool.
 Import ListNotations.
 Require Import TL.Model.Serdes TL.Model.SerdesToy TL.Proofs.SerdesLemmas.
 
-(* The unguarded statement is Model/Serdes.v: C14_full fixd.  It is false for the pinned and for the repaired code. *)
-Theorem C14_full_refuted : ~ C14_full true /\ ~ C14_full false.
-Proof. exact full_refuted. Qed.
+(* The full statement is Model/Serdes.v: C14_full fixd -- every target without bytes-like members (c14_guard),
+   every encodable s, every carrier, every remainder.  It holds for the repaired code; without the strload
+   repair it is false. *)
+Theorem C14_full_holds : C14_full true.
+Proof. exact full_holds. Qed.
+Theorem C14_full_pinned_refuted : ~ C14_full false.
+Proof. exact full_pinned_refuted. Qed.
 
 (* decode: all bytes-like carriers of the same bytes (valid UTF-8 or not) give the same text or
    raise the same error; and every carrier of s decodes to s. *)
@@ -31,7 +35,7 @@ Proof. intros rt L k s He. exact (load_carrier rt L k s He). Qed.
 
 (* every routine head, every remainder, every s, all five carriers: equal result or equal rejection *)
 Theorem C14_carriers : forall rt, RuntimeLaws rt -> forall rest whole sup h k s,
-  encodable s = true -> c14_guard rt h s = true ->
+  encodable s = true -> c14_guard h = true ->
   entry rt rest whole sup h (carrier rt k s) = entry rt rest whole sup h (PStr s).
 Proof. intros rt L rest whole sup h k s He Hg. exact (entry_carrier rt L rest whole sup h k s He Hg). Qed.
 
@@ -89,15 +93,12 @@ Proof.
          | exact refuted_bytearray].
 Qed.
 
-(* pinned and repaired code: Literal["1"] given "1" returns "1", given b"1" loads 1 and rejects *)
-Theorem C14_refuted_literal :
-  exists (rt : Runtime) (rest whole : head -> pv -> res pv) (sup : exn -> bool) (vals : list pv) (s : str),
-    RuntimeLaws rt /\ encodable s = true /\ forallb no_bin_value vals = true /\
-    entry rt rest whole sup (HLiteral vals) (PStr s) = Ok (PStr s) /\
-    entry rt rest whole sup (HLiteral vals) (carrier rt CBytes s) = Raise EValue /\
-    entry_pinned rt rest whole sup (HLiteral vals) (PStr s) = Ok (PStr s) /\
-    entry_pinned rt rest whole sup (HLiteral vals) (carrier rt CBytes s) = Raise EValue.
-Proof. exact refuted_literal. Qed.
+(* Literal: the text of a str member is that member in all five carriers, whatever else the text
+   reads as (e.g. the member "1", which the loader reads as the number 1) *)
+Theorem C14_literal_carriers : forall rt, RuntimeLaws rt -> forall rest whole sup vals k s,
+  encodable s = true -> forallb no_bin_value vals = true -> in_values (PStr s) vals = true ->
+  entry rt rest whole sup (HLiteral vals) (carrier rt k s) = Ok (PStr s).
+Proof. intros rt L rest whole sup vals k s He Hnb Hin. exact (literal_member_carriers rt L rest whole sup vals k s He Hnb Hin). Qed.
 
 (* pinned code: a MemoryError / RecursionError of literal_eval escapes from load; repaired: text back *)
 Theorem C14_refuted_resource :
@@ -110,14 +111,18 @@ Proof. exact refuted_resource. Qed.
 Example C14_laws_satisfiable : RuntimeLaws toy_rt.
 Proof. exact toy_laws. Qed.
 Example C14_guard_inhabited :
-  c14_guard toy_rt (HUnion [HNumber; HLiteral [PStr t_abc; PInt 1]; HSubIterable]) t_list12 = true.
+  c14_guard (HUnion [HNumber; HLiteral [PStr t_abc; PInt 1]; HSubIterable]) = true.
 Proof. exact toy_guard_union. Qed.
+Example C14_literal_member_hyp : forallb no_bin_value [PStr t_one; PInt 1] = true /\
+  in_values (PStr t_one) [PStr t_one; PInt 1] = true /\ load toy_rt (PStr t_one) = Ok (PInt 1).
+Proof. exact toy_literal_member. Qed.
 Example C14_json_text_hyp : json_loads_str toy_rt (json_dumps toy_rt v_list12) = Ok v_list12.
 Proof. exact toy_json_text. Qed.
 Example C14_plain_text_hyp : json_loads_str toy_rt t_abc = Raise EValue /\ literal_eval toy_rt t_abc = Raise ESyntax.
 Proof. exact toy_plain. Qed.
 
-Print Assumptions C14_full_refuted.
+Print Assumptions C14_full_holds.
+Print Assumptions C14_full_pinned_refuted.
 Print Assumptions C14_decode_carriers.
 Print Assumptions C14_load_carriers.
 Print Assumptions C14_carriers.
@@ -127,5 +132,5 @@ Print Assumptions C14_load_json.
 Print Assumptions C14_load_plain_text.
 Print Assumptions C14_load_nontext.
 Print Assumptions C14_refuted_bytearray.
-Print Assumptions C14_refuted_literal.
+Print Assumptions C14_literal_carriers.
 Print Assumptions C14_refuted_resource.
